@@ -21,6 +21,7 @@ CONSTANTS MaxOps,        \* length of a behaviour
           Contents,      \* content ids that may be written
           ImportsOf,     \* content id -> set of module paths it imports
           InitTreesC,    \* initial trees
+          Universe,      \* the paths behaviours may touch (a subset of Paths)
           AllowExternal  \* BOOLEAN
 
 NotCached  == -5
@@ -90,7 +91,7 @@ ChangedBy(p)  == { x \in {p} : Watched(watch, x) } \cup { Parent(x) : x \in { y 
 RemovedBy(p)  == { x \in Paths : Watched(watch, x) /\ IsPrefix(p, x) }
 ParentOf(p)   == { Parent(x) : x \in { y \in {p} : ParentWatched(watch, y) } }
 
-Act(name, l) == [act |-> name, leaf |-> l]
+Act(name, l) == [act |-> name, leaf |-> l, tree |-> {}]
 TreePairs(t) == { <<p, t[p]>> : p \in {q \in Paths : t[q] # Absent} }
 
 (***************************************************************************)
@@ -199,16 +200,18 @@ Init ==
   /\ cachedFiles = {}
   /\ watch = [p \in Paths |-> Unwatched]
   /\ ext = {}
-  /\ trail = << >>
+  /\ trail = << [act |-> "init", leaf |-> Leaf("-", NoPath, NoPath, 0), tree |-> TreePairs(tree)] >>
 
-CLeaves == { l \in AllLeaves : IF l.k = "W" THEN l.c \in Contents ELSE TRUE }
+CLeaves == { l \in AllLeaves : /\ (IF l.k = "W" THEN l.c \in Contents ELSE TRUE)
+                               /\ l.p \in Universe
+                               /\ (IF l.k = "MV" THEN l.q \in Universe ELSE TRUE) }
 
 Next ==
   \/ \E l \in CLeaves : RopeMutate(l)
   \/ \E l \in CLeaves : ExtMutate(l)
   \/ Validate
   \/ QueryFiles
-  \/ \E p \in FilePaths : QueryModule(p)
+  \/ \E p \in FilePaths \cap Universe : QueryModule(p)
 
 Spec == Init /\ [][Next]_vars
 
